@@ -117,6 +117,8 @@ class Oracle:
         self.violations = []
         self.stats = {}
         self.probes = {}
+        self.is_baseline = False
+        self.baseline = {}
         self.cpp_items = []
         self.states = set()
         self.nsamples = case.get("nsamples", 40)
@@ -124,6 +126,14 @@ class Oracle:
 
     def bump(self, d, k, n=1):
         d[k] = d.get(k, 0) + n
+
+    def run_baseline(self, req, rec):
+        o2 = type(self)(self.case, self.Expr, self.fa)
+        o2.is_baseline = True
+        ex = H.Executor(EventLog(keep=False), o2.on_text, {}, {}, {})
+        ex.run(H.solo_history(req, rec))
+        o2.finish_cpp()
+        return set("%s|%s" % (v["cls"], v["key"]) for v in o2.violations)
 
     def violation(self, cls, key, rec, **detail):
         key = key + "|" + rec["key"].split(":")[1]  # the function: a finding about one program never hides another's
@@ -199,6 +209,16 @@ class Oracle:
         if t not in EXEC_TARGETS:
             return
         g = req["g"]
+        if req["func"].startswith("gen:") and not self.is_baseline:
+            # generated programs are judged differentially: flagged only if the same request, made alone on a
+            # fresh context without faults, passes the same oracle (program-dimension defects are not claimed)
+            if rec["key"] not in self.baseline:
+                self.baseline[rec["key"]] = self.run_baseline(req, rec)
+            if self.baseline[rec["key"]]:
+                self.bump(self.stats, "generated_program_fails_alone")
+                self.bump(self.stats, "fails_alone:" + sorted(self.baseline[rec["key"]])[0][:60])
+                return
+            self.bump(self.stats, "generated_program_texts_checked")
         self.bump(self.stats, "texts:" + t)
         if rec["prior"]:
             self.bump(self.probes, "text_from_context_with_history")
@@ -258,10 +278,15 @@ class Oracle:
             self.bump(self.stats, "samples:python")
             if got_exc is not None:
                 self.bump(self.stats, "samples_raising:python")
-                if exp_exc is None and not it.eager_raises(body, None):
-                    self.violation("value", "python|exception-where-graph-evaluates", rec, args=repr(args),
-                                   error=repr(got_exc), expected=repr(exp))
-                    return
+                if exp_exc is None:
+                    er = it.eager_raises(body, None)
+                    if er is None:
+                        self.bump(self.stats, "tainted_samples")
+                        continue
+                    if not er:
+                        self.violation("value", "python|exception-where-graph-evaluates", rec, args=repr(args),
+                                       error=repr(got_exc), expected=repr(exp))
+                        return
             else:
                 if exp_exc is not None:
                     self.violation("value", "python|value-where-graph-raises", rec, args=repr(args), got=repr(got), expected=repr(exp_exc))
@@ -468,7 +493,7 @@ class C05Engine(GenEngineBase):
         faulty = kn.random() < 0.4
         cfg = dict(targets=["python", "numpy", "cpp", "stablehlo"], n_requests=24 if tier == "quick" else 40, allow_faults=True,
                    shared=True, debug_levels={"numpy": [0, 1, 1, 2], "python": [0, 0, 2]}, p_shared_choices=[0.3, 0.6, 0.9],
-                   allow_env=H.FaultEnv.KINDS if faulty else None, reprint_targets=["python", "numpy", "cpp"])
+                   allow_env=H.FaultEnv.KINDS if faulty else None, reprint_targets=["python", "numpy", "cpp"], generated_programs=0.35)
         return {"seed": seed, "hashseed": None, "nsamples": 40 if tier == "quick" else 120,
                 "history": H.gen_history(seed, self.universe, cfg)}
 
